@@ -137,6 +137,22 @@ CHECKS["C10"] = dict(
          "HGETALL/HKEYS/HVALS compared up to order.",
 )
 
+CHECKS["C09"] = dict(
+    category="proof", design_ref="DESIGN.md §6 C09", engine="exec",
+    technique="Lean 4 executable list model with theorems on its index arithmetic, removal, push/pop, LMOVE, LPOS and the never-empty invariant + differential correspondence (replies and keyspace dumps with list self-check) on generated list programs",
+    text="The list executors are modelled as total Lean functions on element sequences in the shared keyspace (Exec/List.lean). Kernel-checked "
+         "theorems (Props/C09.lean): LRANGE/LTRIM = specRange for all start/stop, LINDEX/LSET addressing from either end, LREM removes "
+         "min(|count|, occurrences) from the chosen end and keeps everything else in order, push/pop laws with counts, LMOVE conserves the "
+         "elements (rotation on one key), LPOS equals a short reference definition for all RANK/COUNT/MAXLEN, and list_never_empty for the "
+         "whole list command table; Ds/ListOps ties the Go index loops to the reference. The model is tied to the Go executors by running "
+         "generated programs (duplicate-rich values, indexes and counts across both ends and at the int64 extremes, other-typed and "
+         "expiring keys, blocking pops served at once / timing out / invalid timeouts) through server.Manager.ExecCommand and comparing "
+         "every reply and the dump of the touched keys, where the dump hook checks forward walk = reverse(backward walk) = Len.",
+    note="Trusted: Lean kernel (propext, Classical.choice, Quot.sound), harness/driver/dump hook, strconv mirrored by the model's integer parser "
+         "and the harness' ParseFloat annotation. Error replies compared by class. Blocking pops only in their sequential reading "
+         "(immediate service, nil at a 0.1-0.3 s timeout); wake-up by a producer and exactly-one-popper are concurrency properties checked elsewhere.",
+)
+
 NOT_YET = "check not built yet in this round; see DESIGN.md §8"
 NOT_APPLICABLE = {}
 
